@@ -4,10 +4,11 @@
 # the verif-hooks feature), then runs one property check.  Exit 0 held / 1 violation / 2 machinery.
 set -u
 ID="$1"; TIER="${2:-quick}"
-cd /verif/mc || exit 2
+ROOT="$(cd "$(dirname "$0")/.." && pwd)"
+cd "$ROOT/mc" || exit 2
 export CARGO_NET_OFFLINE=true
-if ! cargo build --offline >/verif/mc/target.build.log 2>&1; then
-  if ! cargo build --offline 2>&1 | tail -40; then :; fi
+if ! cargo build --offline >"$ROOT/mc/target.build.log" 2>&1; then
+  tail -40 "$ROOT/mc/target.build.log"
   echo "MACHINERY-ERROR: harness build failed (see above)"; exit 2
 fi
-exec /verif/mc/target/debug/vcheck check "$ID" --tier "$TIER"
+exec "$ROOT/mc/target/debug/vcheck" check "$ID" --tier "$TIER"
